@@ -24,11 +24,11 @@ type Fn struct {
 	Name   string // "(*Ring).shuffleShard", "DoBatchWithOptions", "(*Lifecycler).initRing$1"
 	Parent *Fn    // enclosing function for literals
 
-	defs  map[types.Object][]defSite // lazily built: definitions of locals (shared with parent chain root)
-	graph *Graph
+	defs     map[types.Object][]defSite // lazily built: definitions of locals (shared with parent chain root)
+	graph    *Graph
 	lits     []*Fn
 	litsDone bool
-	store map[types.Object]ast.Expr // transient: path store used by CanonSt
+	store    map[types.Object]ast.Expr // transient: path store used by CanonSt
 }
 
 func (f *Fn) Body() *ast.BlockStmt {
